@@ -135,8 +135,57 @@ func (e *Engine) enterBlock(st *State) ([]*State, bool) {
 	dry.items = nil
 	e.runDry(dry)
 	mod := dry.dry.mod
+	// phase 2: from a state with everything the loop may modify havocked, find the stores whose
+	// base reference is loop-invariant (then only those objects are havocked, not the whole heap array)
+	if !mod.all {
+		dry2 := st.clone()
+		dry2.items = nil
+		coarse := newModSet()
+		coarse.merge(mod)
+		for h := range coarse.heaps {
+			coarse.whole[h] = true
+		}
+		e.havocMod(dry2, coarse)
+		mark := e.d.nfresh
+		dry2.dry = &DryInfo{header: fr.blk, frameDepth: depth, mod: newModSet()}
+		e.runDry(dry2)
+		mod2 := dry2.dry.mod
+		mod.merge(mod2)
+		mod.bases = map[string]map[string]bool{}
+		for h := range mod.heaps {
+			if mod2.whole[h] || mod.whole[h] && !mod2.heaps[h] {
+				mod.whole[h] = true
+				continue
+			}
+			delete(mod.whole, h)
+			for b := range mod2.bases[h] {
+				if hasFreshAfter(b, mark) {
+					mod.whole[h] = true
+					break
+				}
+			}
+			if !mod.whole[h] {
+				mod.bases[h] = mod2.bases[h]
+			}
+		}
+	} else {
+		for h := range mod.heaps {
+			mod.whole[h] = true
+		}
+	}
 	if st.dry != nil {
 		st.dry.mod.merge(mod)
+		for h := range mod.whole {
+			st.dry.mod.whole[h] = true
+		}
+		for h, bs := range mod.bases {
+			if st.dry.mod.bases[h] == nil {
+				st.dry.mod.bases[h] = map[string]bool{}
+			}
+			for b := range bs {
+				st.dry.mod.bases[h][b] = true
+			}
+		}
 	}
 	e.havocMod(st, mod)
 	fr.inLoop[fr.blk] = true
@@ -150,6 +199,24 @@ func (e *Engine) enterBlock(st *State) ([]*State, bool) {
 	}
 	e.assumeFrame(st, fr)
 	return nil, false
+}
+
+// hasFreshAfter reports whether term t mentions a fresh constant created after counter mark.
+func hasFreshAfter(t string, mark int) bool {
+	for i := 0; i < len(t); i++ {
+		if t[i] == '!' {
+			j := i + 1
+			n := 0
+			for j < len(t) && t[j] >= '0' && t[j] <= '9' {
+				n = n*10 + int(t[j]-'0')
+				j++
+			}
+			if j > i+1 && n > mark {
+				return true
+			}
+		}
+	}
+	return false
 }
 
 func (m *ModSet) merge(o *ModSet) {
@@ -177,10 +244,14 @@ func (e *Engine) havocMod(st *State, mod *ModSet) {
 		e.havocAllHeap(st)
 	}
 	for _, h := range sortedKeys(mod.heaps) {
-		e.heapHavoc(st, h)
-		if h == "alive" {
+		if bs, ok := mod.bases[h]; ok && !mod.whole[h] && len(bs) > 0 {
+			inner := innerSort(e.heapSort(h))
+			for _, b := range sortedKeys(bs) {
+				e.heapStore(st, h, b, e.freshConst(st, "lh", inner))
+			}
 			continue
 		}
+		e.heapHavoc(st, h)
 	}
 	for id := range mod.cells {
 		if v, ok := st.cells[id]; ok && v.K == KTerm {
@@ -220,9 +291,9 @@ func (e *Engine) havocMod(st *State, mod *ModSet) {
 }
 
 func (e *Engine) havocAlive(st *State) {
-	na := e.d.fresh("alive")
-	st.declare(na, "(Array Ref Bool)")
-	st.assume(fmt.Sprintf("(forall ((r Ref)) (! (=> (select %s r) (select %s r)) :pattern ((select %s r))))", st.alive, na, na))
+	na := e.d.fresh("now")
+	st.declare(na, SInt)
+	st.assume(fmt.Sprintf("(>= %s %s)", na, st.alive))
 	st.alive = na
 	st.typed = map[string]bool{}
 }
@@ -543,6 +614,7 @@ func (e *Engine) applyContract(st *State, fc *FuncContract, callee *ssa.Function
 			}
 		}
 	}
+	e.havocAlive(st) // the callee may have allocated
 	res := e.freshResult(st, sanitize(name), resType)
 	post := mkEnv(pre)
 	e.bindResults(post, res)
@@ -596,6 +668,7 @@ func (e *Engine) unknownCall(st *State, callee *ssa.Function, key, name string, 
 		}
 		e.havocBytesIfAnyBytesArg(st, args, name, false)
 	}
+	e.havocAlive(st)
 	res := e.freshResult(st, sanitize(name), resType)
 	return res
 }
@@ -660,8 +733,7 @@ func (e *Engine) havocReachable(st *State, a Val) {
 			if isStruct(et) {
 				e.havocStructAt(st, a.T, et)
 			} else if isArray(et) {
-				es := e.d.SortOf(elemType(et))
-				e.heapStore(st, e.d.ElemHeap(es), a.T, e.freshConst(st, "ha", e.d.SortOf(et)))
+				e.heapStore(st, e.d.ElemHeapT(elemType(et)), a.T, e.freshConst(st, "ha", e.d.SortOf(et)))
 			} else {
 				s := e.d.SortOf(et)
 				e.heapStore(st, e.d.BoxHeap(s), a.T, e.freshVal(st, "hb", et).T)
@@ -669,7 +741,7 @@ func (e *Engine) havocReachable(st *State, a Val) {
 		case *types.Slice:
 			if a.S == SSlice && !isStruct(u.Elem()) {
 				es := e.d.SortOf(u.Elem())
-				h := e.d.ElemHeap(es)
+				h := e.d.ElemHeapT(u.Elem())
 				e.heapStore(st, h, app("sarr", a.T), e.freshConst(st, "hs", Sort(fmt.Sprintf("(Array Int %s)", es))))
 			}
 		case *types.Map:
@@ -797,7 +869,7 @@ func (e *Engine) evalLoc(env *Env, x ast.Expr) []Loc {
 				}
 				return locs
 			}
-			h := e.d.ElemHeap(e.d.SortOf(et))
+			h := e.d.ElemHeapT(et)
 			if all {
 				return []Loc{{Heap: h, Base: arr}}
 			}
@@ -959,10 +1031,10 @@ func (e *Engine) frameCond(st *State, name string, locs []Loc, cur, entry string
 	aliveEntry := st.entry.alive
 	if len(riConds) > 0 && isNested {
 		ks := keySortOfArray(srt)
-		return fmt.Sprintf("(forall ((fr_r Ref) (fr_i %s)) (or (= (select (select %s fr_r) fr_i) (select (select %s fr_r) fr_i)) (not (select %s fr_r)) %s))",
+		return fmt.Sprintf("(forall ((fr_r Ref) (fr_i %s)) (or (= (select (select %s fr_r) fr_i) (select (select %s fr_r) fr_i)) (>= (stamp fr_r) %s) %s))",
 			ks, cur, entry, aliveEntry, or(append(rConds, riConds...)...))
 	}
-	return fmt.Sprintf("(forall ((fr_r Ref)) (or (= (select %s fr_r) (select %s fr_r)) (not (select %s fr_r)) %s))",
+	return fmt.Sprintf("(forall ((fr_r Ref)) (or (= (select %s fr_r) (select %s fr_r)) (>= (stamp fr_r) %s) %s))",
 		cur, entry, aliveEntry, or(rConds...))
 }
 
@@ -1168,7 +1240,7 @@ func (e *Engine) doBuiltin(st *State, b *ssa.Builtin, call *ssa.CallCommon, args
 			return term(n, SInt, intT)
 		}
 		es := e.d.SortOf(et)
-		h := e.d.ElemHeap(es)
+		h := e.d.ElemHeapT(et)
 		cur := st.heapGet(h)
 		na := e.freshConst(st, "cp", Sort(fmt.Sprintf("(Array Int %s)", es)))
 		da, sa := app("sarr", dst.T), app("sarr", src.T)
@@ -1234,14 +1306,14 @@ func (e *Engine) doAppend(st *State, call *ssa.CallCommon, args []Val, instr ssa
 	// in place iff capacity suffices
 	st.assume(fmt.Sprintf("(= %s (and (<= %s (scap %s)) (not (= (sarr %s) rnil))))", inpl, newLen, s.T, s.T))
 	fr := e.freshConst(st, "aparr", SRef)
-	st.assume(fmt.Sprintf("(=> (not %s) (and (not (select %s %s)) (or (= %s rnil) true)))", inpl, st.alive, fr))
+	st.assume(fmt.Sprintf("(=> (not %s) (>= (stamp %s) %s))", inpl, fr, st.alive))
 	st.assume(fmt.Sprintf("(= (sarr %s) (ite %s (sarr %s) (ite (= %s 0) (sarr %s) %s)))", n, inpl, s.T, newLen, s.T, fr))
 	st.assume(fmt.Sprintf("(=> %s (and (= (soff %s) (soff %s)) (= (scap %s) (scap %s))))", inpl, n, s.T, n, s.T))
 	st.assume(fmt.Sprintf("(=> (and (not %s) (> %s 0)) (and (not (= %s rnil)) (= (soff %s) 0)))", inpl, newLen, fr, n))
 	// alive update
-	na := e.d.fresh("alive")
-	st.declare(na, "(Array Ref Bool)")
-	st.assume(fmt.Sprintf("(= %s (ite (or %s (= %s 0)) %s (store %s %s true)))", na, inpl, newLen, st.alive, st.alive, fr))
+	na := e.d.fresh("now")
+	st.declare(na, SInt)
+	st.assume(fmt.Sprintf("(and (>= %s %s) (> %s (stamp %s)))", na, st.alive, na, fr))
 	st.alive = na
 	if isStruct(et) {
 		st.note("append to []struct: element field copy not modelled (element contents of the result unconstrained)")
@@ -1250,8 +1322,7 @@ func (e *Engine) doAppend(st *State, call *ssa.CallCommon, args []Val, instr ssa
 		}
 		return term(n, SSlice, rt)
 	}
-	es := e.d.SortOf(et)
-	h := e.d.ElemHeap(es)
+	h := e.d.ElemHeapT(et)
 	cur := st.heapGet(h)
 	nh := e.heapHavoc(st, h)
 	// other arrays untouched
